@@ -114,6 +114,15 @@ def ast_docs(repo, src, flt, hdr_digest=None):
     return docs
 
 
+def _prune_cache(keep=300):
+    try:
+        fs = sorted((os.path.join(CACHE, f) for f in os.listdir(CACHE) if f.endswith(".json")), key=os.path.getmtime)
+        for f in fs[:-keep]:
+            os.unlink(f)
+    except OSError:
+        pass
+
+
 def walk(n):
     yield n
     for c in n.get("inner", []) or []:
@@ -1197,6 +1206,7 @@ def translate(repo):
 
     with ThreadPoolExecutor(max_workers=min(16, len(jobs))) as ex:
         asts = {j: (d, err) for j, d, err in ex.map(fetch, jobs)}
+    _prune_cache()
     out = []
     for name, lean_ret, src, flt, build in specs:
         docs, err = asts[(src, flt)]
